@@ -98,7 +98,8 @@ c03_poisson_knuth!(c03_poisson_knuth_f32, f32);
 macro_rules! c03_poisson_rej {
     ($name:ident, $f:ty, $maxl:expr) => {
         vproof_zstub! {
-            #[kani::unwind(4)]
+            // (12: the Horner fold over the 10 Table-1 coefficients in step F)
+            #[kani::unwind(12)]
             fn $name() {
                 let mut rng = SymRng::new(4); // all symbolic inputs are drawn first (replay alignment)
                 let lambda: $f = kani::any();
